@@ -38,3 +38,6 @@ class FrameParser:
 
             self._buffer = self._buffer[length + frame_length_byte_count:]
             total -= length + frame_length_byte_count
+
+            if header_length == 0:
+                return  # a message holds exactly one frame (an empty message would otherwise be decoded forever)
